@@ -19,6 +19,7 @@
 mod judge;
 mod lin;
 mod sched;
+mod stress;
 mod sys;
 
 use judge::{Analysis, analyze};
@@ -695,7 +696,8 @@ fn main() {
     }
 
     let known = ck.known().clone();
-    let known_keys: Vec<String> = open_keys(&known, &candidate_keys());
+    let known_keys: Vec<String> = known.open_keys();
+    let _ = (open_keys as fn(&Known, &[String]) -> Vec<String>, candidate_keys as fn() -> Vec<String>);
     let k01: [u8; 2] = [0, 1];
     let k0: [u8; 1] = [0];
 
@@ -766,6 +768,10 @@ fn main() {
     drain_infra(&mut ck);
     let (kn, kk) = (known.clone(), known_keys.clone());
     ck.run(Section::pbt("evict-memory", tier.pick(60_000, 3_000_000), evict_case, move |c: &Case| check_case(c, &kn, &kk)).shards(16));
+    drain_infra(&mut ck);
+
+    // --- free-running stress (real threads, interleavings inside the container's own critical sections)
+    stress::run(&mut ck, tier.pick(1_500, 60_000));
     drain_infra(&mut ck);
 
     sys::drop_executor();
